@@ -2,7 +2,7 @@
 import numpy as np
 
 from .. import core, material as M, tlc
-from ..kern_util import call_guard, cmp_vec
+from ..kern_util import scale_for, call_guard, cmp_vec
 
 
 def _arr(seq, cplx, force_complex=False):
@@ -12,6 +12,12 @@ def _arr(seq, cplx, force_complex=False):
 
 
 # ---------------------------------------------------------------- HERMTOEP
+def _next_scale(chk):
+    n = getattr(chk, '_c10t_scale', 0)
+    chk._c10t_scale = n + 1
+    return scale_for(n)
+
+
 def replay_hermtoep(chk, st, cplx):
     from spectrum.toeplitz import HERMTOEP
     if st['status'] != 'pd' or M.has_ovf(st['x']) or len(st['A']) == 0:
@@ -46,6 +52,13 @@ def replay_hermtoep(chk, st, cplx):
         if bad:
             chk.violation('HERMTOEP:values:%s:%s' % (mode, ename),
                           'HERMTOEP returns x with T x != z (%s)' % bad, dict(case, observed=res))
+        if ename == 'native':
+            # homogeneity: (c T) x = c z has the same solution
+            c = _next_scale(chk)
+            ok, res = call_guard(HERMTOEP, T0 * c, T * c, Z * c)
+            bad = ('raises %r' % (res,)) if not ok else cmp_vec(res, expx, name='x')
+            if bad:
+                chk.violation('HERMTOEP:scaled-system:%s' % mode, 'HERMTOEP on the system scaled by %g: %s' % (c, bad), dict(case, scale=c))
     chk.replayed += 1
     chk.count('hermtoep-' + mode, 'replayed')
     if len(st['A']) >= 2:
@@ -75,7 +88,7 @@ def replay_toeplitz(chk, st, cplx):
     # admissible for the routine: every pivot has a (clearly) positive real part
     admissible = st['status'] == 'ok' and all(_lex_positive(p) for p in st['pivots'])
     clearly_refusable = any(M.cq(p)[0] < 0 for p in st['pivots'])
-    t0 = float(M.rat(st['t0'][0]))
+    t0 = M.cq_complex(st['t0']) if cplx else float(M.rat(st['t0'][0]))
     zreal = all(M.cq_is_real(v) for v in st['z'])
     paths = [('native', False, None), ('complex-dtype', True, None)]
     if zreal:
@@ -91,7 +104,7 @@ def replay_toeplitz(chk, st, cplx):
         elif zkind:
             Z = np.array(M.real_list(st['z']), dtype=zkind)
         T0 = complex(t0) if (cplx or fc) else t0
-        case = {'kernel': 'TOEPLITZ', 'T0': t0, 'TC': TC, 'TR': TR, 'Z': Z, 'complex': cplx,
+        case = {'kernel': 'TOEPLITZ', 'T0': T0, 'TC': TC, 'TR': TR, 'Z': Z, 'complex': cplx,
                 'pivots': [M.cq(p) for p in st['pivots']]}
         ok, res = call_guard(TOEPLITZ, T0, TC, TR, Z)
         chk.evaluations += 1
@@ -109,6 +122,12 @@ def replay_toeplitz(chk, st, cplx):
         if bad:
             chk.violation('TOEPLITZ:values:%s:%s' % (mode, ename),
                           'TOEPLITZ returns x with T x != z (%s)' % bad, dict(case, observed=res, expect_x=expx))
+        if ename == 'native' and admissible:
+            c = _next_scale(chk)
+            ok, res = call_guard(TOEPLITZ, T0 * c, TC * c, TR * c, Z * c)
+            bad = ('raises %r' % (res,)) if not ok else cmp_vec(res, expx, name='x')
+            if bad:
+                chk.violation('TOEPLITZ:scaled-system:%s' % mode, 'TOEPLITZ on the system scaled by %g: %s' % (c, bad), dict(case, scale=c))
     chk.replayed += 1
     chk.count('toeplitz-' + mode, 'replayed')
     chk.count('toeplitz-' + mode, 'admissible' if admissible else 'not-admissible')
@@ -117,7 +136,8 @@ def replay_toeplitz(chk, st, cplx):
 
 
 def part_toeplitz(chk, cplx, order, t0set, parts, zparts):
-    cfg = tlc._cfg_text(constants={'MaxOrder': order, 'T0Set': set(t0set), 'Parts': '<- ' + parts,
+    # complex systems: the diagonal itself is complex (imaginary part 0 or 1)
+    cfg = tlc._cfg_text(constants={'MaxOrder': order, 'T0Set': set(t0set), 'T0Im': {0, 1} if cplx else {0}, 'Parts': '<- ' + parts,
                                    'ZParts': '<- ' + zparts, 'Complex': cplx},
                         invariants=['Solves'])
     return {'module': 'MC_GenToeplitz', 'cfg': cfg, 'part': 'toeplitz-' + ('complex' if cplx else 'real'),
@@ -150,6 +170,12 @@ def replay_cholesky(chk, st, cplx, dim):
             if bad:
                 chk.violation('CHOLESKY:values:%s:%s:%s' % (method, mode, vname),
                               'CHOLESKY(method=%s) returns x with A x != b (%s)' % (method, bad), dict(case, observed=res))
+            if vname == 'complex':
+                c = _next_scale(chk)
+                ok, res = call_guard(CHOLESKY, Av * c, bv * c, method)
+                bad = ('raises %r' % (res,)) if not ok else cmp_vec(res, expx, name='x', tol=1e-7)
+                if bad:
+                    chk.violation('CHOLESKY:scaled-system:%s:%s' % (method, mode), 'CHOLESKY on the system scaled by %g: %s' % (c, bad), dict(case, scale=c))
     chk.replayed += 1
     chk.count('cholesky-' + mode, 'replayed')
     chk.sample('cholesky-' + mode, {'A': st['mat'], 'b': st['rhs'], 'x': st['pick'][nl:]}, 1)
@@ -185,7 +211,9 @@ def replay_case(chk, sig, case):
     if sig.startswith('HERMTOEP'):
         ok, res = call_guard(HERMTOEP, case['T0'], c(case['T']), c(case['Z']))
     elif sig.startswith('TOEPLITZ'):
-        ok, res = call_guard(TOEPLITZ, case['T0'], c(case['TC']), c(case['TR']), c(case['Z']))
+        t0 = case['T0']
+        t0 = complex(t0['re'], t0['im']) if isinstance(t0, dict) else t0
+        ok, res = call_guard(TOEPLITZ, t0, c(case['TC']), c(case['TR']), c(case['Z']))
     else:
         A = np.array([c(row) for row in case['A']])
         ok, res = call_guard(CHOLESKY, A, c(case['b']), case['method'])
